@@ -1212,6 +1212,17 @@ func (d *discharger) p6(o pob) string {
 	case *ssa.UnOp:
 		ptr = x.X
 	}
+	// use of a loaded decode-target pointer variable: the value used is the load itself
+	for _, op := range o.in.Operands(nil) {
+		if u, ok := (*op).(*ssa.UnOp); ok && u.Op == token.MUL {
+			if al, ok := u.X.(*ssa.Alloc); ok && decodedPointerVar(al) {
+				ptr = u
+			}
+		}
+	}
+	if ptr == nil {
+		return ""
+	}
 	if d.nonNilAt(o.fn, o.in, ptr, 0) {
 		return "D8 pointer " + an.Path(ptr) + " is nil-checked on every path to the use (dominating != nil edge, or every phi operand is a fresh allocation or a checked value)"
 	}
